@@ -103,20 +103,33 @@ def check(ctx):
     # ---- R1 ----------------------------------------------------------------------------
     al = A.method('align')
     lp = [l for l in walk_own(al.node) if isinstance(l, ast.For)]
-    ctx.need(len(lp) == 1, 'align: loop not found')
-    st = [s for s in lp[0].body if isinstance(s, ast.Assign)]
     bsp = al.params[4]
     tv = None
-    ok = len(st) == 1 and isinstance(st[0].value, ast.Call) and method_call(st[0].value, 'rotate_translate_pose') and norm(lp[0].iter) == '%s.items()' % bsp
-    if ok:
-        tv = norm(st[0].value.func.value)
-        key, val = [norm(x) for x in lp[0].target.elts]
-        ok = norm(st[0].targets[0]) == 'result[%s]' % key and [norm(a) for a in st[0].value.args] == [val] and len(lp[0].body) == 1
-    ctx.inst('R1', al, 'every-station-through-T', ok, 'each base station pose is mapped by the transform into result[id]')
-    inv = tv is not None and not any(isinstance(s, (ast.Assign, ast.AugAssign)) and norm(s.targets[0] if isinstance(s, ast.Assign) else s.target) == tv for s in walk_own(lp[0]))
-    ctx.inst('R1', al, 'one-transform', inv, 'the transform %s is loop invariant: one rigid motion for all stations' % tv)
     res = [s for s in al.node.body if isinstance(s, (ast.Assign, ast.AnnAssign)) and norm(s.targets[0] if isinstance(s, ast.Assign) else s.target) == 'result']
-    ctx.inst('R1', al, 'fresh-result', len(res) == 1 and norm(res[0].value) in ('{}', 'dict()'), 'the result is a fresh dict')
+    if len(lp) == 1:
+        st = [s for s in lp[0].body if isinstance(s, ast.Assign)]
+        ok = len(st) == 1 and isinstance(st[0].value, ast.Call) and method_call(st[0].value, 'rotate_translate_pose') and norm(lp[0].iter) == '%s.items()' % bsp
+        if ok:
+            tv = norm(st[0].value.func.value)
+            key, val = [norm(x) for x in lp[0].target.elts]
+            ok = norm(st[0].targets[0]) == 'result[%s]' % key and [norm(a) for a in st[0].value.args] == [val] and len(lp[0].body) == 1
+        ctx.inst('R1', al, 'every-station-through-T', ok, 'each base station pose is mapped by the transform into result[id]')
+        inv = tv is not None and not any(isinstance(s, (ast.Assign, ast.AugAssign)) and norm(s.targets[0] if isinstance(s, ast.Assign) else s.target) == tv for s in walk_own(lp[0]))
+        ctx.inst('R1', al, 'one-transform', inv, 'the transform %s is loop invariant: one rigid motion for all stations' % tv)
+        ctx.inst('R1', al, 'fresh-result', len(res) == 1 and norm(res[0].value) in ('{}', 'dict()'), 'the result is a fresh dict')
+    else:
+        # no loop: the only other shape that pairs every id with ITS OWN transformed pose is the dictionary comprehension over
+        # bs_poses.items(); anything that pairs keys and values from two separate walks (zip of sorted keys with values ..) does not
+        dc = res[0].value if len(res) == 1 and isinstance(res[0].value, ast.DictComp) else None
+        ok = dc is not None and len(dc.generators) == 1 and not dc.generators[0].ifs and norm(dc.generators[0].iter) == '%s.items()' % bsp and \
+            isinstance(dc.generators[0].target, ast.Tuple) and len(dc.generators[0].target.elts) == 2 and norm(dc.key) == norm(dc.generators[0].target.elts[0]) and \
+            isinstance(dc.value, ast.Call) and method_call(dc.value, 'rotate_translate_pose') and [norm(a) for a in dc.value.args] == [norm(dc.generators[0].target.elts[1])]
+        if ok:
+            tv = norm(dc.value.func.value)
+        ctx.inst('R1', al, 'every-station-through-T', bool(ok), 'each base station pose is mapped by the transform into result[id] (its own id); found %s' %
+                 (norm(res[0].value)[:80] if res else 'no result binding'))
+        ctx.inst('R1', al, 'one-transform', tv is not None, 'one rigid motion for all stations')
+        ctx.inst('R1', al, 'fresh-result', dc is not None, 'the result is a fresh dict')
     rets = [norm(s.value) for s in walk_own(al.node) if isinstance(s, ast.Return)]
     ctx.inst('R1', al, 'returns-result-and-T', rets == ['(result, %s)' % tv], 'align returns (poses, transform); returns %s' % rets)
     tdef = {norm(s.targets[0]): norm(s.value) for s in al.node.body if isinstance(s, ast.Assign)}
